@@ -4,6 +4,9 @@ import importlib
 import json
 import os
 import sys
+import logging
+
+logging.disable(logging.CRITICAL)
 
 
 def main():
